@@ -531,6 +531,100 @@ func multiSystematic(k int) {
 	}
 }
 
+// mworld: observation of several counters of one file object (lock-step of the
+// multi scenarios against Model/CounterMulti)
+type mworld struct {
+	f     *counter.VerifFile
+	cs    []*counter.Counter
+	maps  []mapping
+	files []string
+}
+
+func (w *mworld) noteCur() {
+	base := w.f.CurBase()
+	if base == 0 {
+		return
+	}
+	for _, m := range w.maps {
+		if m.base == base {
+			return
+		}
+	}
+	name := w.f.CurFileName()
+	found := false
+	for _, fn := range w.files {
+		if fn == name {
+			found = true
+		}
+	}
+	if !found {
+		w.files = append(w.files, name)
+	}
+	w.maps = append(w.maps, mapping{len(w.maps), base, uintptr(w.f.CurLen()), name})
+}
+
+func (w *mworld) codeOf(addr uintptr) int64 {
+	for _, m := range w.maps {
+		if addr >= m.base && addr < m.base+m.len {
+			return int64(m.id) + 1
+		}
+	}
+	return -1
+}
+
+// observe: per counter (word, pointer code, persisted), current mapping code, closed mappings
+func (w *mworld) observe() []string {
+	w.noteCur()
+	pers := make([]uint64, len(w.cs))
+	for _, fn := range w.files {
+		data, err := os.ReadFile(fn)
+		if err != nil {
+			continue
+		}
+		pf, err := counter.Parse(fn, data)
+		if err != nil {
+			continue
+		}
+		for i := range w.cs {
+			pers[i] += pf.Count[fmt.Sprintf("m%d", i)]
+		}
+	}
+	var o []string
+	for i, c := range w.cs {
+		pc := int64(0)
+		if !counter.VerifPtrNil(c) {
+			pc = w.codeOf(counter.VerifPtrAddr(c))
+		}
+		o = append(o, U(counter.VerifWord(c)), I(pc), U(pers[i]))
+	}
+	cur := int64(0)
+	if base := w.f.CurBase(); base != 0 {
+		cur = w.codeOf(base)
+	}
+	o = append(o, I(cur), I(int64(vatomic.NClosed())))
+	return o
+}
+
+// listed: the registration list from the head
+func (w *mworld) listed() []int {
+	var l []int
+	p := w.f.HeadPtr()
+	for n := 0; p != 0 && p != w.f.EndPtr() && n < 100; n++ {
+		idx := -1
+		for i, c := range w.cs {
+			if counter.VerifCounterPtr(c) == p {
+				idx = i
+			}
+		}
+		if idx < 0 {
+			break
+		}
+		l = append(l, idx)
+		p = counter.VerifNextPtr(w.cs[idx])
+	}
+	return l
+}
+
 func multiRun(cfg multiCfg) int {
 	dir, err := os.MkdirTemp(root, "m")
 	if err != nil {
@@ -564,6 +658,8 @@ func multiRun(cfg multiCfg) int {
 	}
 	fname := f0.CurFileName()
 	f0.Close()
+	vatomic.ResetClosed()
+	counter.VerifConcRelease()
 	// this process: several counters incremented before the file is opened
 	f := counter.VerifNewFile()
 	nc := cfg.npend
@@ -584,7 +680,10 @@ func multiRun(cfg multiCfg) int {
 	}
 	nc = len(cs)
 	type th struct {
-		fn func()
+		fn   func()
+		kind string
+		ctr  int
+		amt  uint64
 	}
 	var ths []th
 	// the first Adds of the fresh counters come first in thread order: a single
@@ -595,7 +694,7 @@ func multiRun(cfg multiCfg) int {
 			i := i
 			k := uint64(1 + rnd.Intn(3))
 			want[i] += k
-			ths = append(ths, th{func() { cs[i].Add(int64(k)) }})
+			ths = append(ths, th{func() { cs[i].Add(int64(k)) }, "add", i, k})
 		}
 	}
 	if cfg.twice {
@@ -603,16 +702,24 @@ func multiRun(cfg multiCfg) int {
 		for k := 0; k < nf; k++ {
 			i := len(cs) - nf + k
 			want[i] += 2
-			ths = append(ths, th{func() { cs[i].Add(2) }})
+			ths = append(ths, th{func() { cs[i].Add(2) }, "add", i, 2})
 		}
 	}
-	ths = append(ths, th{func() { f.Rotate1() }})
+	rotKind := "rot"
+	if cfg.full {
+		rotKind = "rotf"
+	}
+	ths = append(ths, th{func() { f.Rotate1() }, rotKind, 0, 0})
 	for j := 0; j < cfg.extra; j++ {
 		i := rnd.Intn(nc)
 		k := uint64(1 + rnd.Intn(3))
 		want[i] += k
-		ths = append(ths, th{func() { cs[i].Add(int64(k)) }})
+		ths = append(ths, th{func() { cs[i].Add(int64(k)) }, "add", i, k})
 	}
+	mw := &mworld{f: f, cs: cs}
+	init0 := mw.observe()
+	listed0 := mw.listed()
+	var lsteps []string
 	s := vsched.New(true)
 	defer vsched.Stop()
 	tids := make([]int, len(ths))
@@ -682,6 +789,11 @@ func multiRun(cfg multiCfg) int {
 			info = s.Step(tids[i])
 			trace = append(trace, fmt.Sprintf("t%d %s@%x -> next=%s@%x done=%v", i, pre.Label, pre.Addr, info.Label, info.Addr, info.Done))
 		}
+		lsteps = append(lsteps, I(int64(i)))
+		lsteps = append(lsteps, mw.observe()...)
+		if debug {
+			fmt.Fprintf(os.Stderr, "  [%d] %s => %v\n", nsteps, trace[len(trace)-1], mw.observe())
+		}
 		if info.Panic != "" {
 			status = "panic"
 			fmt.Fprintln(os.Stderr, info.Panic)
@@ -689,6 +801,18 @@ func multiRun(cfg multiCfg) int {
 		}
 	}
 	fields := []string{"multi", status, I(int64(nc))}
+	// lock-step part: initial observation, registration list, thread programs, one observation per step
+	fields = append(fields, init0...)
+	fields = append(fields, I(int64(len(listed0))))
+	for _, c := range listed0 {
+		fields = append(fields, I(int64(c)))
+	}
+	fields = append(fields, I(int64(len(ths))))
+	for _, t := range ths {
+		fields = append(fields, t.kind, I(int64(t.ctr)), U(t.amt))
+	}
+	fields = append(fields, I(int64(nsteps)))
+	fields = append(fields, lsteps...)
 	if status == "ok" {
 		data, _ := os.ReadFile(fname)
 		pf, perr := counter.Parse(fname, data)
